@@ -371,3 +371,41 @@ def fast_server(conf):
         yield srv
     finally:
         shutil.rmtree(folder, ignore_errors=True)
+
+
+# ------------------------------------------------------------------ third prefix source: a configuration FILE
+MODES.append("configfile-full-xff")
+
+
+def config_file_text(script_name, web, folder):
+    """The text of a configuration file as an administrator writes it (one `option = value` per line)."""
+    return ("[server]\nscript_name = %s\n\n[auth]\ntype = none\ndelay = 0\n\n[web]\ntype = %s\n\n"
+            "[storage]\nfilesystem_folder = %s\n\n[logging]\nlevel = critical\n" % (script_name, web, folder))
+
+
+@contextlib.contextmanager
+def file_server(script_name, web="internal"):
+    """The real Application configured ONLY through a configuration file loaded with config.load([(path, False)])
+    (the way `radicale --config FILE` does), storage in /dev/shm when there is one.
+    Yields an object with .application, .folder, .configuration, .config_text."""
+    from radicale import app, config
+    base = "/dev/shm" if os.path.isdir("/dev/shm") and os.access("/dev/shm", os.W_OK) else None
+    top = tempfile.mkdtemp(prefix="rv-c18f-", dir=base)
+    try:
+        folder = os.path.join(top, "store")
+        text = config_file_text(script_name, web, folder)
+        path = os.path.join(top, "config")
+        with open(path, "w") as f:
+            f.write(text)
+        configuration = config.load([(path, False)])
+        configuration.update({"storage": {"_filesystem_fsync": "False"}}, "verif", privileged=True)
+        yield types.SimpleNamespace(application=app.Application(configuration), folder=folder,
+                                    configuration=configuration, config_text=text)
+    finally:
+        shutil.rmtree(top, ignore_errors=True)
+
+
+def file_value_ok(v):
+    """Can `script_name = v` be written on one line of a configuration file and be accepted by Application.__init__?"""
+    return (v.startswith("/") and not v.strip().endswith("/") and "\n" not in v and "\r" not in v
+            and all(ord(c) >= 32 or c == "\t" for c in v))
